@@ -195,8 +195,8 @@ func (d *FormatDecoder) Next() (interface{}, error) {
 		return e, nil
 
 	case CaFormatUser:
-		b := make([]byte, hdr.Size-16)
-		if _, err = io.ReadFull(d.r, b); err != nil {
+		b, err := d.readBody(hdr, 16, 1)
+		if err != nil {
 			return nil, err
 		}
 		// Strip off the 0 byte
@@ -204,8 +204,8 @@ func (d *FormatDecoder) Next() (interface{}, error) {
 		return FormatUser{FormatHeader: hdr, Name: string(b)}, nil
 
 	case CaFormatGroup:
-		b := make([]byte, hdr.Size-16)
-		if _, err = io.ReadFull(d.r, b); err != nil {
+		b, err := d.readBody(hdr, 16, 1)
+		if err != nil {
 			return nil, err
 		}
 		// Strip off the 0 byte
@@ -213,8 +213,8 @@ func (d *FormatDecoder) Next() (interface{}, error) {
 		return FormatGroup{FormatHeader: hdr, Name: string(b)}, nil
 
 	case CaFormatXAttr:
-		b := make([]byte, hdr.Size-16)
-		if _, err = io.ReadFull(d.r, b); err != nil {
+		b, err := d.readBody(hdr, 16, 1)
+		if err != nil {
 			return nil, err
 		}
 		// Strip off the 0 byte
@@ -222,8 +222,8 @@ func (d *FormatDecoder) Next() (interface{}, error) {
 		return FormatXAttr{FormatHeader: hdr, NameAndValue: string(b)}, nil
 
 	case CaFormatSELinux:
-		b := make([]byte, hdr.Size-16)
-		if _, err = io.ReadFull(d.r, b); err != nil {
+		b, err := d.readBody(hdr, 16, 1)
+		if err != nil {
 			return nil, err
 		}
 		// Strip off the 0 byte
@@ -231,8 +231,8 @@ func (d *FormatDecoder) Next() (interface{}, error) {
 		return FormatSELinux{FormatHeader: hdr, Label: string(b)}, nil
 
 	case CaFormatFilename:
-		b := make([]byte, hdr.Size-16)
-		if _, err = io.ReadFull(d.r, b); err != nil {
+		b, err := d.readBody(hdr, 16, 1)
+		if err != nil {
 			return nil, err
 		}
 		// Strip off the 0 byte
@@ -240,8 +240,8 @@ func (d *FormatDecoder) Next() (interface{}, error) {
 		return FormatFilename{FormatHeader: hdr, Name: string(b)}, nil
 
 	case CaFormatSymlink:
-		b := make([]byte, hdr.Size-16)
-		if _, err = io.ReadFull(d.r, b); err != nil {
+		b, err := d.readBody(hdr, 16, 1)
+		if err != nil {
 			return nil, err
 		}
 		// Strip off the 0 byte
@@ -264,6 +264,9 @@ func (d *FormatDecoder) Next() (interface{}, error) {
 		return e, nil
 
 	case CaFormatPayload:
+		if hdr.Size < 16 || hdr.Size-16 > math.MaxInt64 {
+			return nil, InvalidFormat{"invalid payload size"}
+		}
 		size := hdr.Size - 16
 		r := io.LimitReader(d.r, int64(size))
 		// Record the reader to be read fully on the next iteration if the caller
@@ -272,8 +275,8 @@ func (d *FormatDecoder) Next() (interface{}, error) {
 		return FormatPayload{FormatHeader: hdr, Data: r}, nil
 
 	case CaFormatFCaps:
-		b := make([]byte, hdr.Size-16)
-		if _, err = io.ReadFull(d.r, b); err != nil {
+		b, err := d.readBody(hdr, 16, 0)
+		if err != nil {
 			return nil, err
 		}
 		return FormatFCaps{FormatHeader: hdr, Data: b}, nil
@@ -288,8 +291,8 @@ func (d *FormatDecoder) Next() (interface{}, error) {
 		if err != nil {
 			return nil, err
 		}
-		b := make([]byte, hdr.Size-32)
-		if _, err = io.ReadFull(d.r, b); err != nil {
+		b, err := d.readBody(hdr, 32, 1)
+		if err != nil {
 			return nil, err
 		}
 		// Strip off the 0 byte
@@ -307,8 +310,8 @@ func (d *FormatDecoder) Next() (interface{}, error) {
 		if err != nil {
 			return nil, err
 		}
-		b := make([]byte, hdr.Size-32)
-		if _, err = io.ReadFull(d.r, b); err != nil {
+		b, err := d.readBody(hdr, 32, 1)
+		if err != nil {
 			return nil, err
 		}
 		// Strip off the 0 byte
@@ -345,23 +348,29 @@ func (d *FormatDecoder) Next() (interface{}, error) {
 		return e, nil
 
 	case CaFormatGoodbye:
-		n := (hdr.Size - 16) / 24
-		items := make([]FormatGoodbyeItem, n)
-		e := FormatGoodbye{FormatHeader: hdr, Items: items}
-		for i := uint64(0); i < n; i++ {
-			items[i].Offset, err = d.r.ReadUint64()
-			if err != nil {
-				return nil, err
-			}
-			items[i].Size, err = d.r.ReadUint64()
-			if err != nil {
-				return nil, err
-			}
-			items[i].Hash, err = d.r.ReadUint64()
-			if err != nil {
-				return nil, err
-			}
+		if hdr.Size < 16 {
+			return nil, InvalidFormat{"element size too small"}
 		}
+		n := (hdr.Size - 16) / 24
+		// Grow the list as items are read, the size field can't be trusted
+		var items []FormatGoodbyeItem
+		for i := uint64(0); i < n; i++ {
+			var item FormatGoodbyeItem
+			item.Offset, err = d.r.ReadUint64()
+			if err != nil {
+				return nil, err
+			}
+			item.Size, err = d.r.ReadUint64()
+			if err != nil {
+				return nil, err
+			}
+			item.Hash, err = d.r.ReadUint64()
+			if err != nil {
+				return nil, err
+			}
+			items = append(items, item)
+		}
+		e := FormatGoodbye{FormatHeader: hdr, Items: items}
 		// Ensure we have the tail marker in the last item
 		if len(items) < 1 || items[len(items)-1].Hash != CaFormatGoodbyeTailMarker {
 			return nil, InvalidFormat{"tail marker not found"}
@@ -438,6 +447,16 @@ func (d *FormatDecoder) Next() (interface{}, error) {
 	default:
 		return nil, fmt.Errorf("unsupported header type %x", hdr.Type)
 	}
+}
+
+// readBody reads what's left of an element after 'consumed' bytes of it were
+// read already. Fails if the size in the header is smaller than that plus the
+// min number of bytes the body needs to have.
+func (d *FormatDecoder) readBody(hdr FormatHeader, consumed, min uint64) ([]byte, error) {
+	if hdr.Size < consumed || hdr.Size-consumed < min {
+		return nil, InvalidFormat{"element size too small"}
+	}
+	return d.r.ReadN(hdr.Size - consumed)
 }
 
 // FormatEncoder takes casync format elements and encodes them into a stream.
